@@ -19,11 +19,12 @@ Proof.
   destruct l; cbn [recv_frame] in Hl; try discriminate; inversion Hl; subst; clear Hl; cbn [step obs_fine msg_fine conn_fine] in *;
     try (use_res1 Hs; reflexivity).
   5: { (* PUSH_PROMISE *)
+    apply andb_true_iff in Hc. destruct Hc as [Hc Hloc].
     apply andb_true_iff in Hc. destruct Hc as [Hc Hc3]. apply andb_true_iff in Hc. destruct Hc as [Hc Hc2].
     apply andb_true_iff in Hc. destruct Hc as [Er Hc1]. apply negb_true_iff in Er.
     destruct (c_recv_next st) as [n|] eqn:En; [|discriminate]. apply N.leb_le in Hc3.
     assert (Hlt : (promised <? n) = false) by (apply N.ltb_ge; auto).
-    unfold step_recv_push_promise, recv_open_id in Hs. rewrite Hi, Hz, Er, Hc1, Hc2, En, Hlt in Hs. cbn [negb andb orb] in Hs.
+    unfold step_recv_push_promise, recv_open_id in Hs. rewrite Hi, Hz, Er, Hc1, Hc2, En, Hlt, Hloc in Hs. cbn [negb andb orb] in Hs.
     destruct (s_popen r) eqn:Ep; destruct (s_ppush r) eqn:Eu; rewrite ?Er in *;
       kill_state2 r Hv Hm Hwf;
       try (destruct (is_local_init _ sid); discriminate);
@@ -66,7 +67,14 @@ Proof.
   { unfold is_client_init in Hc. destruct (sid =? 0); auto. }
   destruct (c_recv_next st) as [n|] eqn:En; [|discriminate]. apply N.leb_le in Hn.
   assert (Hlt : (sid <? n) = false) by (apply N.ltb_ge; auto).
-  unfold step_recv_headers, recv_open_id in Hs. rewrite Hi, Hz, Er, Hc, En, Hlt in Hs. cbn [negb andb orb] in Hs.
+  assert (Hf : may_have_forgotten st sid = false).
+  { unfold may_have_forgotten, is_local_init. rewrite Hz, Er, En.
+    unfold is_client_init, is_server_init in *. rewrite Hz in *. cbn [negb andb] in *.
+    destruct (sid mod 2 =? 0) eqn:E0.
+    - apply N.eqb_eq in E0. rewrite E0 in Hc. discriminate.
+    - cbn. exact Hlt. }
+  unfold step_recv_headers, recv_open_id in Hs. rewrite Hi, Hz, Er, Hc, En, Hlt, Hf in Hs.
+  rewrite andb_false_r in Hs. cbn [negb andb orb] in Hs.
   destruct o; cbn in Ho. unf. cbn in Hs.
   peel Hs; try (use_res1 Hs); finish0.
 Qed.
